@@ -6,11 +6,11 @@ export GOFLAGS=-mod=mod GOPROXY=off GOSUMDB=off GOTOOLCHAIN=local
 mkdir -p work evidence replays harness/bin lean/XmppModel/Generated
 (cd harness && go build -tags verif -o bin/harness .)
 # regenerate every fact file from /repo before the first lake build
-for p in $(ls meta | sed 's/\.json$//'); do
+for p in $(ls meta | grep "^C" | sed 's/\.json$//'); do
   ./check "$p" --facts-only || true
 done
 (cd lean && lake build xdriver)
-for p in $(ls meta | sed 's/\.json$//'); do
+for p in $(ls meta | grep "^C" | sed 's/\.json$//'); do
   (cd lean && lake build "XmppModel.Props.$p") || echo "setup: Props.$p did not build (the check will report it)"
 done
 echo "setup ok"
